@@ -78,6 +78,18 @@ def str_eq(ex, a, b):
         if ca is not None and cb is not None:
             return z3.BoolVal(ca == cb)
         return a.t == b.t
+
+    def as_chars(x):
+        if isinstance(x, CharStr):
+            return list(x.chars)
+        if isinstance(x, StrVal) and x.concrete() is not None:
+            return [z3.IntVal(ord(ch)) for ch in x.concrete()]
+        return None
+    xa, xb = as_chars(a), as_chars(b)
+    if xa is not None and xb is not None:
+        if len(xa) != len(xb):
+            return z3.BoolVal(False)
+        return z3.And(*[p == q for p, q in zip(xa, xb)]) if xa else z3.BoolVal(True)
     raise Unsupported("string equality on %r %r" % (a, b))
 
 
@@ -1286,6 +1298,21 @@ def install(ex):
         if isinstance(a, StrVal) and isinstance(b, StrVal):
             yield z3.PrefixOf(b.t, a.t) if callee.endswith("starts_with") else z3.SuffixOf(b.t, a.t)
             return
+        if isinstance(a, CharStr):
+            if is_z3(b) and z3.is_int(b):
+                pat = [b]
+            elif isinstance(b, StrVal) and b.concrete() is not None:
+                pat = [z3.IntVal(ord(ch)) for ch in b.concrete()]
+            elif isinstance(b, CharStr):
+                pat = list(b.chars)
+            else:
+                raise Unsupported("starts_with pattern %r" % (b,))
+            if len(pat) > len(a.chars):
+                yield z3.BoolVal(False)
+                return
+            part = a.chars[:len(pat)] if strip_turbofish(callee).endswith("starts_with") else a.chars[len(a.chars) - len(pat):]
+            yield z3.And(*[x == y for x, y in zip(part, pat)]) if pat else z3.BoolVal(True)
+            return
         raise Unsupported("starts_with on %r %r" % (a, b))
 
     @model(r"^core::str::<impl str>::(strip_prefix|trim_start_matches)$", "str::strip_prefix (once) / trim_start_matches (repeatedly, up to 3 times in the model)")
@@ -1528,6 +1555,52 @@ def install(ex):
                     yield NONE
                 else:
                     ex.panic("attempt to multiply with overflow (pow)", callee)
+
+    def byte_split(ex, sv, k, callee):
+        """fork: index i of the character boundary at byte offset k of a character list (panic when k is inside a character or
+        beyond the end) - yields i"""
+        sums = [z3.IntVal(0)]
+        for c in sv.chars:
+            sums.append(z3.simplify(sums[-1] + utf8_len(c)))
+        conds = [k == x for x in sums]
+        conds.append(z3.And(*[k != x for x in sums]))
+        for i in ex.branches(conds):
+            if i == len(sums):
+                ex.panic("byte index is not a char boundary / out of range", callee)
+            else:
+                yield i
+
+    @model(r"^core::str::<impl str>::split_at$", "str::split_at(k) on a character list: k is a BYTE offset and must be a character boundary (panic otherwise)")
+    def str_split_at(ex, callee, args, rt):
+        sv = ex.deref(args[0])
+        if not isinstance(sv, CharStr):
+            raise Unsupported("split_at of %r" % (sv,))
+        for i in byte_split(ex, sv, args[1], callee):
+            yield Tup([CharStr(sv.chars[:i]), CharStr(sv.chars[i:])])
+
+    @model(r"^<(std::string::)?(String|str) as Index<(std::ops::|core::ops::)?(range::)?(RangeFrom|RangeTo|Range)<usize>>>::index$", "string slicing by byte offsets on a character list (panic off a character boundary)")
+    def str_slice(ex, callee, args, rt):
+        sv = ex.deref(args[0])
+        if not isinstance(sv, CharStr):
+            raise Unsupported("slicing of %r" % (sv,))
+        rg = ex.deref(args[1])
+        kind = re.search(r"(RangeFrom|RangeTo|Range)<usize>", callee).group(1)
+        fields = rg.fields if isinstance(rg, Adt) else None
+        if fields is None:
+            raise Unsupported("range value %r" % (rg,))
+        if kind == "RangeFrom":
+            for i in byte_split(ex, sv, fields[0], callee):
+                yield CharStr(sv.chars[i:])
+        elif kind == "RangeTo":
+            for i in byte_split(ex, sv, fields[0], callee):
+                yield CharStr(sv.chars[:i])
+        else:
+            for i in byte_split(ex, sv, fields[0], callee):
+                for j in byte_split(ex, sv, fields[1], callee):
+                    if j < i:
+                        ex.panic("slice index starts after its end", callee)
+                    else:
+                        yield CharStr(sv.chars[i:j])
 
     @model(r"^core::str::<impl str>::split_once$", "str::split_once(char) on a character list: at the first occurrence (one fork per position)")
     def str_split_once(ex, callee, args, rt):
@@ -2160,6 +2233,54 @@ def install(ex):
     @model(r"^(std|core)::iter::once(::<.*>)?$|^once(::<.*>)?$", "iter::once")
     def it_once(ex, callee, args, rt):
         yield IterObj("seq", seq=new_seq(ex, [args[0]]), pos=0, by_ref=False, mut=False)
+
+    @model(r"as Iterator>::nth$", "Iterator::nth(n) for a concrete n: n items are skipped, the next one returned")
+    def it_nth(ex, callee, args, rt):
+        it = make_iter(ex, args[0], False) if not isinstance(ex.deref(args[0]), IterObj) else args[0]
+        n = conc_int(args[1])
+        if n is None:
+            raise Unsupported("nth with a symbolic index")
+
+        def go(k):
+            for o in iter_next(ex, it):
+                if o.variant == "None" or k == 0:
+                    yield o
+                else:
+                    yield from go(k - 1)
+        yield from go(n)
+
+    @model(r"as Iterator>::flatten(::<.*>)?$", "Iterator::flatten: Option / Result items contribute their payload (None / Err contribute nothing), collections their elements")
+    def it_flatten(ex, callee, args, rt):
+        outer = make_iter(ex, args[0], False) if not isinstance(ex.deref(args[0]), IterObj) else args[0]
+        state = IterObj("custom", next=None)
+        state.cur = None
+
+        def nxt(ex_, it_):
+            if state.cur is not None:
+                for o in iter_next(ex_, state.cur):
+                    if o.variant == "Some":
+                        yield o
+                    else:
+                        tset(state, "cur", None)
+                        yield from nxt(ex_, it_)
+                return
+            for o in iter_next(ex_, outer):
+                if o.variant == "None":
+                    yield NONE
+                    continue
+                x = ex_.deref(o.fields[0])
+                if isinstance(x, (SeqObj, IterObj, MapObj)):
+                    tset(state, "cur", make_iter(ex_, x, False) if not isinstance(x, IterObj) else x)
+                    yield from nxt(ex_, it_)
+                    continue
+                names = ["Ok", "Err"] if (isinstance(x, Adt) and x.ty == "Result") or (isinstance(x, Lazy) and base_ty(x.ty) == "Result") else ["Some", "None"]
+                for v in enum_branch(ex_, x, names):
+                    if v in ("Ok", "Some"):
+                        yield Some(variant_field(ex_, x, v, 0))
+                    else:
+                        yield from nxt(ex_, it_)
+        state.next = nxt
+        yield state
 
     @model(r"as Iterator>::take_while(::<.*>)?$", "Iterator::take_while: ends at (and consumes) the first item the predicate rejects")
     def it_take_while(ex, callee, args, rt):
